@@ -88,6 +88,14 @@ structure PyWit where
   stack : List Bytes
 deriving Repr, Inhabited
 
+/-- Python `xs[i]` on a list (a negative index counts from the end) -/
+def listGet {α : Type} (xs : List α) (i : Int) : Except PyErr α :=
+  let j : Int := if i < 0 then i + xs.length else i
+  if j < 0 then .error .indexError
+  else match xs[j.toNat]? with
+    | some x => .ok x
+    | none => .error .indexError
+
 /-- `str(i)` -/
 def strInt (i : Int) : String := toString i
 
